@@ -828,6 +828,20 @@ def grammar_pass(res, name, items, tier, only=None):
             obs_21 = obs_other = _observe_private(res, name, items, 'grammar21', only, True)
         else:
             res.counters['grammar21.names-not-in-css21-profile'] += 1
+    if in21:
+        # the verdict depends on the *active* profiles: CSS 2.1 active among all registered profiles answers like CSS 2.1 registered alone
+        with DefaultCSS21():
+            obs_d = _observe_private(res, name, items, 'default21', only, False)
+        for entry, dom, raw in items:
+            t = entry['text']
+            if only not in (None, t) or t not in obs_d or t not in obs_21:
+                continue
+            res.clauses['C13.active'] += 1
+            res.evaluations += 1
+            if obs_d[t][0] != obs_21[t][0]:
+                res.violation('C13.active', f'css21-active-among-all-registered-differs-from-css21-registered-alone|{fmt(obs_21[t][0])}->{fmt(obs_d[t][0])}|' + ('colour-valued-property' if 'color' in ref.SIMPLE[name][1] else name),
+                              {'kind': 'grammar', 'name': name, 'value': t}, {'only CSS 2.1 registered': fmt(obs_21[t][0])},
+                              {'all registered, defaultProfiles=[CSS 2.1]': fmt(obs_d[t][0])})
     if not in21 and 'color' in ref.SIMPLE[name][1]:
         with PrivateRegistry(drop=['CSS Color Module Level 3']) as names:
             if name in names:
@@ -1062,6 +1076,25 @@ class PrivateRegistry:
 
 def OnlyCSS21():
     return PrivateRegistry(keep=[CSS21])
+
+
+class DefaultCSS21:
+    """a private registry with every shipped profile registered and CSS 2.1 as the only *active* one (defaultProfiles)"""
+
+    def __enter__(self):
+        guard.pristine(profiles=True)
+        from cssutils.profiles import Profiles
+
+        self.orig = cssutils.profile
+        priv = Profiles(log=cssutils.log)
+        priv.defaultProfiles = [CSS21]
+        cssutils.profile = priv
+        return set(priv.knownNames)
+
+    def __exit__(self, *a):
+        cssutils.profile = self.orig
+        guard.pristine(profiles=True)
+        return False
 
 
 # ----------------------------------------------------------------------------------------
